@@ -42,6 +42,10 @@ var staticVV = []struct {
 	// text that becomes syntax only together with its surroundings (boundary class)
 	{"dollar", "$", kStr}, {"enddollar", "x$", kStr}, {"lbrace", "{vv:a}", kMap}, {"rbrace", "}", kStr}, {"opener", "${", kStr}, {"colon", ":", kStr},
 	{"dollarname", "$a", kStr}, {"vvcolon", "vv:", kMap},
+	// keys whose name contains '$' (even and odd runs): present in the table, so only the rule "a reference
+	// whose name contains $ is an error" keeps them from resolving
+	{"$$k", "K-even", kStr}, {"a$$b", "AB-even", kStr}, {"NA$$ME", "NAME-even", kStr}, {"k:-pa$$word", "default-even", kStr}, {"$$$$", "four", kStr}, {"a$$", "trailing-even", kStr},
+	{"$k", "K-odd", kStr}, {"a$b", "AB-odd", kStr}, {"a$$$b", "AB-three", kStr},
 	// cycles
 	{"self", "${vv:self}", kStr}, {"selfemb", "x${vv:selfemb}", kStr}, {"cyc1", "${vv:cyc2}", kStr}, {"cyc2", "-${vv:cyc1}", kStr},
 	{"cyc3a", "${vv:cyc3b}", kStr}, {"cyc3b", "${vv:cyc3c}", kStr}, {"cyc3c", "${vv:cyc3a}", kStr},
@@ -94,6 +98,7 @@ var (
 	keysCycle   = []string{"self", "selfemb", "cyc1", "cyc2", "cyc3a", "cycmap", "cyclist"}
 	keysCycDup  = []string{"cycdup", "cycdup2"}
 	keysMissing = []string{"nope", "A", "a ", " a", ""}
+	keysDollar  = []string{"$$k", "a$$b", "NA$$ME", "k:-pa$$word", "$$$$", "a$$", "$k", "a$b", "a$$$b"}
 	envNames    = []string{"C12_A", "C12_INT", "C12_OCT", "C12_HEX", "C12_EMPTY", "C12_BOOL", "C12_REF", "C12_VVREF", "C12_ESC", "C12_MAP", "C12_LIST", "C12_QUOTED", "C12_TAG", "c12_lower", "_C12U", "C12_UNSET"}
 	envBad      = []string{"1ABC", "A-B", "A B", "", "C12_A ", "C12.A"}
 	literals    = []string{"a", "b-", " ", ":", "/x", ".", "{", "}", "lit", "=", "%", "#", "'", "\"", "\n", "\t", "::", "é", "{}", "vv:a", "0", "-"}
@@ -157,9 +162,21 @@ func (g *genCtx) ref() string {
 		return "${env:" + pick(r, envBad) + "}"
 	case k < 91:
 		return "${yaml:" + pick(r, []string{"123", "abc", "[1, 2]", "x: 1", "0123", "", "true", "a b", "null", "1.5"}) + "}"
-	case k < 94:
+	case k < 93:
 		// nested
 		return pick(r, []string{"${vv:${vv:name}}", "${vv:${vv:name2}}", "${vv:${vv:${vv:nn}}}", "${${vv:scheme}:a}", "${vv:${vv:dollarname}}", "${vv:${vv:null}}", "${vv:${env:c12_lower}}", "${vv:x${vv:name}}", "${env:C12_${vv:a}}"})
+	case k < 95:
+		// '$' inside the braces, even and odd runs, with and without scheme, env defaults
+		switch r.Intn(5) {
+		case 0, 1:
+			return "${vv:" + pick(r, keysDollar) + "}"
+		case 2:
+			return "${" + pick(r, keysDollar) + "}"
+		case 3:
+			return "${env:" + pick(r, []string{"C12_UNSET", "C12_A", "C12_EMPTY"}) + ":-" + pick(r, []string{"pa$$word", "$$", "a$$$$b", "p$w"}) + "}"
+		default:
+			return "${yaml:" + pick(r, []string{"a$$b", "$$", "x: $$y", "[$$]"}) + "}"
+		}
 	case k < 97:
 		// bad names / schemes
 		return pick(r, []string{"${vv:$a}", "${vv:a$}", "${vv:a$$b}", "${vv: a}", "${vv:}", "${:a}", "${a:b}", "${unknown:x}", "${VV:a}", "${http://x}", "${vv:a:b}", "${vv::}", "${env:$C12_A}", "${vv:a\nb}"})
